@@ -280,7 +280,7 @@ theorem fetchCore_ok {cfg : Config} {x : Ctx} (inv : Inv cfg x.st) {p : Peer} (h
   have hn0 : (x0.st.peers.map (·.conn)).Nodup := by
     rw [hx0st]
     show ((updatePeer x.st.peers p.conn _).map (·.conn)).Nodup
-    rw [updatePeer_conns _ _ _ (fun _ => rfl)]
+    rw [updatePeer_conns x.st.peers p.conn (fun q => { q with fetches := q.fetches ++ [f] }) (fun _ => rfl)]
     exact inv.fetches.connNodup
   have hels0 : x0.st.peers.map (·.elements) = x.st.peers.map (·.elements) := by
     rw [hx0st]
@@ -288,8 +288,8 @@ theorem fetchCore_ok {cfg : Config} {x : Ctx} (inv : Inv cfg x.st) {p : Peer} (h
   have hp0 : ∀ q ∈ x0.st.peers, (q.elements.map (·.path)).Nodup := by
     intro q hq
     obtain ⟨q', hq', e⟩ := exists_of_map_eq hels0 hq
-    simp only at e
-    rw [← e]
+    have e' : q'.elements = q.elements := e
+    rw [← e']
     exact inv.elems.pathNodup q' hq'
   obtain ⟨o1, o2⟩ := offerAllElements_spec cfg x0 { p with fetches := p.fetches ++ [f] } f hn0 hp0
   have hall0 : allElems x0.st = allElems x.st := allElems_eq_of_map_elements hels0
@@ -350,7 +350,7 @@ theorem hok_ite {cfg : Config} {x : Ctx} {req : Json} {c : Bool} {a b : Ctx × O
 theorem handleMethod_ok {cfg : Config} {x : Ctx} (inv : Inv cfg x.st) {p : Peer} (hp : p ∈ x.st.peers)
     (req : Json) (method : Bytes) : HOK cfg x req (handleMethod cfg x p req method) := by
   unfold handleMethod
-  repeat' apply hok_ite
+  repeat' with_reducible apply hok_ite
   all_goals first
     | exact changeState_ok inv hp req
     | exact setOrCall_ok inv p req _
